@@ -204,6 +204,21 @@ def run(ctx):
                 if version == 3 and frac == 0.5 and mode == "random":
                     for i in range(2):
                         ctx.sample({"log_e_nu": float(loge[i]), "beta_rad": float(beta[i]), "E_tau": float(tauEnergy[i]), "gamma": float(tauLorentz[i]), "speed": float(tauBeta[i]), "lenDec_km": float(lenDec[i]), "altDec_km": float(altDec[i])})
+    # ---- the diagnostic plots are observers of Taus.__call__ (energies, Lorentz factors, speeds) --------
+    from .. import plotobs
+
+    for version in (1, 3):
+        cpl = NssConfig()
+        cpl.simulation.tau_shower.table_version = str(version)
+        bpl = rng.uniform(0, b42, 400)
+        bpl[:40] = rng.uniform(0, np.radians(0.1), 40)
+        lpl = rng.uniform(6, 12, 400)
+
+        def _call(o, kw, b_, le_):
+            with rngctl.stub(rngctl.constant(0.5625)):
+                return o(b_, le_, **kw)
+
+        plotobs.check_stage(ctx, f"Taus.__call__ v{version}", lambda: Taus(cpl), _call, (bpl, lpl), "energy")
     # ---- monotonicity ladders on EAS.altDec ------------------------------------------------------
     state["beta_pristine"] = None
     cfg = NssConfig()
@@ -235,7 +250,7 @@ def run(ctx):
         except Exception as e:
             ctx.exception("raises", "EAS.altDec raised on a monotonicity ladder", e, {"gamma": g, "beta": be})
     ctx.count("contracts", ncontract["n"])
-    for m in ("lorentz", "speed", "shower", "energy", "inputs", "lendec", "lendec-internal-generator", "altdec", "monotone", "contracts"):
+    for m in ("plots", "lorentz", "speed", "shower", "energy", "inputs", "lendec", "lendec-internal-generator", "altdec", "monotone", "contracts"):
         ctx.require(m)
     return ctx.finish(
         rule="3 table versions x etau_frac {1e-3, .5, 1} x {hostile, random}: logE in [6,12] (incl. exactly 6 and table nodes), beta in [0, 42 deg] incl. 0, exactly 42 deg and table nodes; energy draws through the RNG stub (5e-324 .. 1-1e-15) or the real generator; decay numbers in (0,1] incl. 5e-324 and exactly 1; a case is a distinct (version, frac, logE, beta, E_tau)",
